@@ -853,7 +853,12 @@ impl Response {
                 }
                 let header = boxed_header.unwrap();
                 if header.name == Header::_CONTENT_LENGTH {
-                    content_length = header.value.parse().unwrap();
+                    let boxed_content_length = header.value.parse();
+                    if boxed_content_length.is_err() {
+                        let message = format!("unable to parse Content-Length: {}", header.value);
+                        return Err(message);
+                    }
+                    content_length = boxed_content_length.unwrap();
                 }
                 response.headers.push(header);
             }
